@@ -1007,6 +1007,8 @@ class Session:
             if c.vf:
                 return ('fail', 'UNBALANCED_CONDITIONAL', 'switch')
             succ = self.successor
+            if len(succ) > MAX_SCRIPT_SIZE:
+                return ('fail', 'SCRIPT_SIZE', 'switch')      # every evaluated script is subject to the limit
             self.successor = b''
             self._new(succ, c.stack)
             if self.flags & F["P2SH"] and is_p2sh(succ):
